@@ -235,6 +235,8 @@ def make_inputs(case):
         k = torch.tensor(_ints(rng, _numel(ks), -lim, lim), dtype=torch.float32).reshape(ks)
     v = torch.tensor(_ints(rng, _numel(vs), -9, 9), dtype=torch.float32).reshape(vs)
     q, k, v = q.to(dt), k.to(dt), v.to(dt)
+    if case.get("alias"):
+        v = k  # the SAME tensor object
     mask = None
     if ms is not None:
         if case["mask"] == "all":
@@ -307,13 +309,16 @@ def make_inputs(case):
     if how == "expanded":
         # the explicitly expanded tensors as stride-0 views
         i, ET, Eb = geometry(case, q, k, v, mask)
+        alias = v is k
         q = q.broadcast_to(Eb + [q.shape[-1]])
         k = k.broadcast_to(ET + [k.shape[-1]])
-        v = v.broadcast_to(ET + [v.shape[-1]])
+        v = k if alias else v.broadcast_to(ET + [v.shape[-1]])
         mask = None if mask is None else mask.broadcast_to(ET)
     elif how is not None:
         lrng = random.Random(case["seed"] ^ 0xA11)
+        alias = v is k
         q, k, v, mask = (_layout(x, how, lrng) for x in (q, k, v, mask))
+        v = k if alias else v
     return q, k, v, mask, params
 
 
@@ -492,9 +497,21 @@ class C20(PropertyCheck):
             layout = rng.random() < 0.2
         if layout:
             c["layout"] = rng.choice(["strided", "transposed", "expanded"])
+        if rng.random() < 0.1:
+            # value IS key (the class docstring's example passes the encoder output as both)
+            c["alias"] = True
+            c["D"], c["bv"], c["vT"] = c["K"], list(c["bk"]), True
         if mode is not None:
             c["mag"] = self._mag(rng, mode, dtype, c["kind"] == "multi")
             c["pmode"] = "int"
+            if mode == "offset":
+                # room for an ordinary-size part next to the large common offset
+                if c["kind"] == "single":
+                    c["K"] = max(2, c["K"])
+                    c["Q"] = c["K"] if c["flavour"] == "dot" else c["Q"]
+                else:
+                    c["dk"] = 2
+                    c["dq"] = 2 if c["flavour"] == "dot" else c["dq"]
             if c["flavour"] == "dot":
                 c["scale"] = rng.choice(["1", "1/2", "-1"] + ([] if mode == "extreme" else ["2"]))
         return c
@@ -756,6 +773,21 @@ class C20(PropertyCheck):
         if not torch.isfinite(out).all():
             fails.append(["non-finite output on finite inputs with >= 1 kept position", "C20.nonfinite"])
             return fails
+        # the call is a pure function of its arguments: grad mode / training flag change nothing,
+        # the arguments are not written to
+        before = [None if x is None else x.clone() for x in (q, k, v, mask)]
+        try:
+            with torch.enable_grad():
+                og = mod(q.clone().requires_grad_(True), k, v, mask).detach()
+            mod.eval()
+            oe = mod(q, k, v, mask)
+            mod.train()
+            if not (torch.equal(og, out) and torch.equal(oe, out)):
+                fails.append(["output depends on the grad mode / the training flag", "C20.mode"])
+        except Exception as e:  # noqa
+            fails.append([f"call with grad enabled / in eval mode raised {type(e).__name__}: {e}"[:200], "C20.mode"])
+        if any(b is not None and not torch.equal(a, b) for a, b in zip((q, k, v, mask), before)):
+            fails.append(["the call modified one of its arguments in place", "C20.inplace"])
         # implicit broadcasting == explicit expansion
         try:
             out_e = mod(qf, kf, vf, mf)
@@ -790,11 +822,16 @@ class C20(PropertyCheck):
                               "C20.convex"])
         # blindness: masked keys / values replaced by random finite values
         if not bool(mfull.all()):
-            for trial in range(2):
-                # ordinary, large and huge (finite) replacements
+            for trial in range(3):
+                # ordinary, large, huge (finite) replacements; last: keys so large that the scores at the
+                # masked positions overflow (inf, or nan = inf - inf) before they are masked
                 big = 10.0 ** (rng.choice([0, 1, 3]) if trial == 0 else rng.choice([3, 30]))
                 kr = torch.tensor(_floats(rng, kf.numel(), big), dtype=kf.dtype).reshape(kf.shape)
                 vr = torch.tensor(_floats(rng, vf.numel(), big * 10), dtype=vf.dtype).reshape(vf.shape)
+                if trial == 2:
+                    top = float(torch.finfo(kf.dtype).max) / 2
+                    kr = torch.tensor([rng.choice([-top, top]) for _ in range(kf.numel())],
+                                      dtype=kf.dtype).reshape(kf.shape)
                 k2 = torch.where(mfull.unsqueeze(-1), kf, kr)
                 v2 = torch.where(mfull.unsqueeze(-1), vf, vr)
                 try:
